@@ -735,7 +735,7 @@ func retryTier(r *vh.Rng, out *vh.Out, tier string) map[string]interface{} {
 	emit := func(sc rscen, cls string) { jobs = append(jobs, job{sc, cls}) }
 	n := 2500
 	if tier == "thorough" {
-		n = 60000
+		n = 30000
 	}
 	g.exhaustive(emit)
 	for i := 0; i < n; i++ {
